@@ -30,6 +30,8 @@ pub(crate) fn optimize(
     symbol_list: &SymbolList,
     enabled_modes: FlagSet<EncodationType>,
 ) -> Option<Vec<(usize, EncodationType)>> {
+    #[cfg(datamatrix_verif)]
+    verif_hooks::reset();
     let start_plan = GenericPlan::for_mode(mode, data, written, symbol_list);
 
     let mut plans = Vec::with_capacity(36);
@@ -42,9 +44,6 @@ pub(crate) fn optimize(
         // take part in the loop as if its first iteration had produced them.
         start_plan.add_switches(&mut new_plan, data.len(), true, enabled_modes);
     }
-
-    #[cfg(datamatrix_verif)]
-    verif_hooks::reset();
 
     for iteration in 0usize.. {
         #[cfg(datamatrix_verif)]
